@@ -97,7 +97,7 @@ func RunC01(c *Ctx, r *Report) {
 	r.Explanation = "Structural necessary conditions of the protected round trip: the sender of role r and the receiver of role not-r select the same cipher and MAC objects (RFC 7296 2.14 table), each object is keyed with its own key, the plain-codec fallbacks are taken exactly when no key is supplied / the first payload is not SK, both header arms hand the same bytes and next-payload value to the chain walker, and the inner chain is linked through Encrypted.NextPayload with exactly L checksum octets appended and stripped."
 	r.TrustedBase = append(r.TrustedBase, "go/types and go/ssa (x/tools v0.29.0)", "this checker's dominance / linear-form helpers")
 	r.Assumptions = append(r.Assumptions, "both peers hold the same IKESAKey contents", "a pre-parsed header passed to DecodeDecrypt was parsed from the same datagram")
-	r.NotDecided = append(r.NotDecided, "that AES-CBC decryption inverts encryption and padding removal inverts padding (C10)", "that the plain codec round-trips (C03)", "value-level equality for concrete messages and keys; the nine suites are covered because the rules are suite-independent")
+	r.NotDecided = append(r.NotDecided, "that AES-CBC decryption inverts encryption and padding removal inverts padding (C10)", "value-level behaviour of the plain codec (its structural round-trip rules, the rule set of C03, are included under C01.codec.*)", "value-level equality for concrete messages and keys; the nine suites are covered because the rules are suite-independent")
 	r.Rule(prefix+"anchor", "every function named by the rules resolves", 0)
 	a, ok := c.ikeFuncs(r, prefix)
 	if !ok {
@@ -123,6 +123,8 @@ func RunC01(c *Ctx, r *Report) {
 	c.headerArmRules(r, prefix, a)
 	// rule 5: inner chain linkage
 	c.innerChainRules(r, prefix, a)
+	// the header and the inner payload chain pass through the plain codec on both ends
+	c.plainCodecRules(r, prefix+"codec.")
 }
 
 func (c *Ctx) fallbackRules(r *Report, prefix string, a *ikeAnchors) {
